@@ -236,6 +236,8 @@ func (e *Engine) intrinsic(st *State, fr *Frame, fn *ssa.Function, args []Value,
 	case "verifZoneAt":
 		e.declareZoneAt(st, args[0].(*Term), args[1].(*Term), args[2].(*Term))
 		return retExit(st, nil), true
+	case "verifControllerZoneAt":
+		return retExit(st, e.declareControllerZoneAt(st, args[0].(*Term), args[1].(*Term), args[2].(*Term))), true
 	case "verifZoneParams":
 		if e.zv == nil {
 			panic(unsupported("verifZoneParams without verifZoneAt"))
